@@ -10,10 +10,11 @@ CONSTANTS
   A = 3
   M = 7
   I = 2
-  B = 2
-  Deltas <- D12
+  B = 1
+  Deltas <- D23
   OtherKinds <- SomeOther
   Strict = FALSE
+  ExK = 1
   D = 0
 INIT Init
 NEXT NextR
